@@ -85,6 +85,15 @@ def case_tokens(case, ops, want_snaps=True):
             out += [1]
         elif op["op"] == "insert_absence":
             out += [2, len(op["list"])] + list(op["list"])
+        elif op["op"] == "reverse_log":
+            out += [3]
+        elif op["op"] == "initialize":
+            out += [5, int(bool(op.get("state", True))), int(bool(op.get("log", True)))]
+        elif op["op"] == "backward":
+            ab = list(op.get("abs", []))
+            out += [4, int(bool(op.get("due", False))), int(bool(op.get("revlog", True))), op.get("rule", 0), len(ab)] + ab + [
+                int(bool(op.get("auto_abs"))), int(bool(op.get("init_state", True))), int(bool(op.get("init_log", True))), int(op.get("max_time", 200))]
+            out += [len(order)] + order
         else:
             raise AssertionError(op)
     return out
@@ -244,7 +253,7 @@ def compare_snap(a, b, fields, where, out, limit=8):
                         return
 
 
-MODEL_OPS = ("simulate", "remove_absence", "insert_absence")
+MODEL_OPS = ("simulate", "remove_absence", "insert_absence", "reverse_log", "backward", "initialize")
 
 
 def applicable(case):
@@ -284,7 +293,7 @@ def compare(case, trace, cone=None, model=None):
     out = []
     for oi, (rec, m) in enumerate(zip(trace[:n_ok], model)):
         ms, ps = m["snaps"], rec["snaps"]
-        if rec["snaps"]:
+        if rec["snaps"] and rec["op"]["op"] != "backward":      # the inner run of a backward op is compared through its result only
             if [(k, ph) for (k, ph, _) in ms] != [(k, ph) for (k, ph, w, _) in ps]:
                 out.append("op%d: snapshot sequence differs: model %d snapshots (last %s), implementation %d (last %s)" % (
                     oi, len(ms), ms[-1][:2] if ms else None, len(ps), ps[-1][:2] if ps else None))
